@@ -109,7 +109,7 @@ def run(tier):
                         allowed = {"__type__"} | ({"__position__"} if pflag else set()) | ({"__comments__"} if cflag else set())
                         hk = hidden_keys(d if not isinstance(d, list) else list(d), set())
                         rec["variants"].append({"name": name, "proj": itn.value(project.project(d)),
-                                                "position_printed": "__position__" in out or "'line'" in out or "\"line\":" in out,
+                                                "position_printed": out.count("__position__") > base_out.count("__position__"),
                                                 "printed": itn.s(printed_digest(out)), "hidden_ok": hk <= allowed})
                     except Exception as ex:  # noqa: BLE001
                         ck.violation("C13|raised|%s|%s" % (name.split(":")[1], type(ex).__name__),
